@@ -183,7 +183,7 @@ PROPS = {
             "'never entered concurrently' is decided only in its sequential reading (guard taken for exactly one update, released before tasks run)",
             "events emitted by ONE task are applied in the order emitted: rests on the FIFO contract of the single event channel",
             "the view model read after a call reflects every applied event (Core::view takes a read lock: not extracted)",
-            "CapabilityContext::update_app (Arc<dyn SenderInner>) - only CommandContext::send_event is verified",
+            "that a CapabilityContext's app_channel feeds the core's event queue unmapped (established by Core::new / ProtoContext::specialize, not extracted): update_app and channel::Sender::send are proved to send the event exactly once on whatever their inner sender is",
         ],
     },
     "C06": {
